@@ -217,6 +217,12 @@ def type_name(
         return f"{_typing_name('Union', short)}[{args_str}]"
     elif is_annotated(typ):
         return type_name(get_args(typ)[0], short, resolved_type_params)
+    elif is_type_alias_type(typ):
+        # "type Name = X" has a __name__ but no __qualname__
+        if short:
+            return typ.__name__
+        else:
+            return f"{typ.__module__}.{typ.__name__}"
     elif not is_type_origin and is_literal(typ):
         args_str = _get_literal_values_str(typ, short)
         return f"{_typing_name('Literal', short, typ.__module__)}[{args_str}]"
